@@ -165,9 +165,19 @@ func UnXS(s string) string { return string(MustUnX(s)) }
 // timeout x cases). The timeouts already recorded are oracle failures, so the verdict stands.
 var caseTimeouts int
 
+// Once a run has already observed property violations, there is no point in spending a long time
+// on the remaining cases (defects that make the real code block cost seconds per case): after
+// runBudget of wall time with at least one oracle failure recorded, remaining cases are skipped.
+// A clean run is never cut short.
+var (
+	runStart       = time.Now()
+	runBudget      = 150 * time.Second
+	oracleFailures int
+)
+
 func runCase(p *Prop, idx int, lines []string) (c *Case) {
 	c = &Case{Index: idx, Lines: lines, stats: map[string]int{}}
-	if caseTimeouts >= 3 {
+	if caseTimeouts >= 3 || (oracleFailures > 0 && time.Since(runStart) > runBudget) {
 		c.Out("!skipped", "!skipped")
 		c.stats["skipped-after-repeated-timeouts"]++
 		return c
@@ -267,6 +277,9 @@ func main() {
 	modelF := mustCreate(filepath.Join(*dir, "model_in.txt"))
 	implF := mustCreate(filepath.Join(*dir, "impl.out"))
 	oracleF := mustCreate(filepath.Join(*dir, "oracle.jsonl"))
+	if *tier == "thorough" {
+		runBudget = 15 * time.Minute
+	}
 	st := &Stats{Property: id, Seed: *seed, Tier: *tier, Rule: p.Rule, Distribution: map[string]int{}, CorpusCases: nCorpus}
 	seen := map[[32]byte]bool{}
 	idx := 0
@@ -284,6 +297,7 @@ func main() {
 			fmt.Fprintln(implF, c.implOut[i])
 		}
 		st.Lines += len(c.modelIn)
+		oracleFailures += len(c.oracle)
 		for _, o := range c.oracle {
 			o.Property, o.Case, o.Script = id, idx, lines
 			b, _ := json.Marshal(o)
